@@ -273,6 +273,11 @@ class SeqGen:
                     ops.append({"op": "sq.setDelay", "id": sub, "ch": chans[0], "v": enc((2 + (n % 3) * 2) / SR)})
                 ops.append({"op": "sq.addSub", "id": sid, "pos": p, "sub": sub})
                 info["subs"][p] = (sub, K)
+            elif info["els"] and (n + p + P) % 5 == 0:
+                # the same element once more (a reference pulse between varied ones): every position is forged on its own
+                eid = info["els"][sorted(info["els"])[0]]
+                ops.append({"op": "sq.addElement", "id": sid, "pos": p, "el": eid})
+                info["els"][p] = eid
             else:
                 eid = self.g.fresh("e")
                 order = r.sample(chans, len(chans)) if permute else list(chans)
@@ -292,7 +297,7 @@ class SeqGen:
             if r.random() < filters_p:
                 kind = r.choice(["HP", "LP"])
                 order = r.choice([-2, -1, 1, 2, 3])
-                fc = SR * r.choice([1e-3, 1e-2, 0.12, 0.4])
+                fc = SR * r.choice([1e-3, 1e-2, 0.12, 0.4, 0.75, 3])       # (a cut-off may lie above the Nyquist frequency)
                 if r.random() < 0.5:
                     ops.append({"op": "sq.setFilter", "id": sid, "ch": ch, "kind": kind, "order": order, "orderIsInt": True, "f_cut": enc(fc), "tau": None})
                 else:
